@@ -99,7 +99,20 @@ BAD_KEYOBJ = ("1", "None", "('C',)", "2.5", "b'C'")
 def gen_bad_set(rng, base):
     """A configuration update the statements list as rejected.  -> (kind, literal)."""
     kind = rng.choice(("no_q", "bad_key", "bad_key", "odd_key", "bad_value", "bad_value",
-                       "bad_preset", "bad_arg", "key_obj"))
+                       "bad_preset", "bad_arg", "key_obj", "bad_value"))
+    if kind == "bad_value" and rng.random() < 0.25:
+        # the table in force, spelt with a non-int capacity that compares equal (4.0, 4+0j)
+        items = list(base.items())
+        if rng.random() < 0.5:
+            rng.shuffle(items)
+        j = rng.randrange(len(items))
+        parts = []
+        for i, (k, v) in enumerate(items):
+            if i == j or rng.random() < 0.2:
+                parts.append("%r: %s" % (k, rng.choice(("%d.0" % v, "(%d+0j)" % v))))
+            else:
+                parts.append("%r: %r" % (k, v))
+        return kind, "{" + ", ".join(parts) + "}"
     if kind == "bad_preset":
         return kind, lit(rng.choice(BAD_PRESETS))
     if kind == "bad_arg":
@@ -163,7 +176,7 @@ NOVEL = ("[CH3]", "[CH2]", "[CH1]", "[=CH1]", "[NH1]", "[NH2+1]", "[NH3+1]", "[N
 SPECIAL = ("[nop]", "[epsilon]", "[nop]")
 COMPAT = ("[Branch1_1]", "[Branch1_2]", "[Branch2_3]", "[Expl=Ring1]", "[Expl#Ring2]", "[Expl/Ring1]",
           "[Expl\\Ring1]", "[C@@Hexpl]", "[NHexpl]", "[=N+expl]", "[O-expl]", "[Siexpl]", "[/C@Hexpl]", "[nHexpl]")
-INVALID = ("[Q]", "[C", "[]", "[CH10]", "[c]", "[C+]", "[C+0]", "[=Ring4]", "[Branch4]", "[#Ring1x]",
+INVALID = ("[C@@Hexpl]", "[NHexpl]", "[Branch1_2]", "[Expl=Ring1]", "[=N+expl]", "[Q]", "[C", "[]", "[CH10]", "[c]", "[C+]", "[C+0]", "[=Ring4]", "[Branch4]", "[#Ring1x]",
            "[1]", "[C@@@]", "[Xx]", "[=]", "[ C]", "[C=]", "[CH]", "[Cl-]", "[Branch]", "[$C]")
 
 
@@ -283,9 +296,10 @@ SMILES_OK = (
     "BrCl", "[H][H]", "[Na+].[Cl-]", "C(=O)=O", "C#C", "[C-]#[O+]", "CS(C)(=O)=O", "NN(N)N",
     "c1cc[se]c1", "C1=C[Te]C=C1", "[Si](C)(C)(C)C", "B(O)(O)O", "[BH4-]", "[NH4+]", "[OH3+]",
     "F[Xe](F)(F)F", "Cl(=O)(=O)(=O)O", "I(F)(F)(F)(F)(F)(F)F", "N(=O)(=O)O", "C=C=C=C",
+    "C:C:C:C", "C1:C:C:C:C:C:1", "N:C:C:N", "C:C", "CC:CC(F):C:C",
     "C/C=C/C=C/C", "C[S@](=O)N", "[C@H]1(F)(Cl)CCC1", "O=C(O)[C@@H]1CCCN1", "C12C3C4C1C5C2C3C45",
 )
-SMILES_BAD = ("C(", "C1CC", "cc", "[Xx]", "C)", "", "C((C))", "C=", "c1ccc1", "C$C", "C*", "[C", "C1CC2",
+SMILES_BAD = ("C:C:C", "C:C:C:C:C", "N:O:C", "C(", "C1CC", "cc", "[Xx]", "C)", "", "C((C))", "C=", "c1ccc1", "C$C", "C*", "[C", "C1CC2",
               "1CC1", "(C)", "C..C", "C.", "c1cccc1", "[nH]1ccccc1", "C%1", "C[C@@@H]", "C:::C",
               "C1=CC=1", "C(C)(", ".C")
 
@@ -309,13 +323,13 @@ def gen_smiles(rng, ctx):
 PROFILES = {
     # relative weights of op kinds; per run a random subset is switched off (swarm)
     "C11": dict(set_preset=6, set_table=8, set_bad=4, get=1, get_preset=1, get_alphabet=2, mutate=4,
-                decode=30, encode=14, decode_fail=5, encode_fail=3, flood=2, observe=2, alpha_decode=0, util=2),
+                decode=30, encode=14, decode_fail=5, encode_fail=3, flood=2, observe=2, alpha_decode=0, util=2, repeat=8),
     "C12": dict(set_preset=8, set_table=10, set_bad=14, get=10, get_preset=8, get_alphabet=8, mutate=16,
-                decode=8, encode=4, decode_fail=3, encode_fail=1, flood=1, observe=6, alpha_decode=0, util=1),
+                decode=8, encode=4, decode_fail=3, encode_fail=1, flood=1, observe=6, alpha_decode=0, util=1, repeat=2),
     "C07": dict(set_preset=6, set_table=14, set_bad=6, get=1, get_preset=1, get_alphabet=10, mutate=6,
-                decode=4, encode=1, decode_fail=2, encode_fail=0, flood=1, observe=3, alpha_decode=14, util=1),
+                decode=4, encode=1, decode_fail=2, encode_fail=0, flood=1, observe=3, alpha_decode=14, util=1, repeat=1),
     "C06": dict(set_preset=7, set_table=12, set_bad=4, get=1, get_preset=0, get_alphabet=1, mutate=2,
-                decode=4, encode=40, decode_fail=1, encode_fail=4, flood=2, observe=1, alpha_decode=0, util=1),
+                decode=4, encode=40, decode_fail=1, encode_fail=4, flood=2, observe=1, alpha_decode=0, util=1, repeat=6),
 }
 FAULT_KINDS = ("set_bad", "mutate", "decode_fail", "encode_fail", "flood")
 
@@ -379,6 +393,7 @@ class _GenState:
         self.last_kind = None
         self.pending_repeat = []          # inputs to re-issue after the next table change
         self.calls = {}                   # op index -> translation op that produced an attribution handle
+        self.all_calls = []               # every translation op issued so far
         self._ctx = None
 
     # --- context for input generation
@@ -468,7 +483,9 @@ class _GenState:
             yield from self.query(idx, only="encode")
         elif kind == "decode_fail":
             x = gen_failing_selfies(rng, self.ctx())
-            yield {"op": "decode", "x": x, "compatible": rng.random() < 0.15, "attribute": rng.random() < 0.3, "why": "fail"}
+            op = {"op": "decode", "x": x, "compatible": rng.random() < 0.15, "attribute": rng.random() < 0.3, "why": "fail"}
+            self.all_calls.append(dict(op))
+            yield op
             if rng.random() < 0.5:   # a later success sharing the novel symbols
                 yield {"op": "decode", "x": x.replace(self._bad_of(x), ""), "compatible": False, "attribute": False,
                        "why": "after_fail"}
@@ -480,6 +497,27 @@ class _GenState:
         elif kind == "observe":
             self.handles.append((idx, "obs"))
             yield {"op": "observe"}
+        elif kind == "repeat":
+            # an earlier translation call again - identical, or with one flag flipped
+            # ("repeated calls"; state that one mode leaves behind for the other)
+            if not self.all_calls:
+                yield from self.query(idx)
+            else:
+                op = dict(rng.choice(self.all_calls[-12:]))
+                u = rng.random()
+                if u < 0.35:
+                    pass
+                elif op["op"] == "decode":
+                    flag = rng.choice(("compatible", "compatible", "attribute"))
+                    op[flag] = not op[flag]
+                else:
+                    flag = rng.choice(("strict", "attribute"))
+                    op[flag] = not op[flag]
+                op["why"] = "repeat"
+                if op.get("attribute"):
+                    self.handles.append((idx, "attr"))
+                    self.calls[idx] = dict(op)
+                yield op
         elif kind == "util":
             # other public entry points in between (pure utilities; results recorded, not judged:
             # they are history, not subject)
@@ -541,6 +579,7 @@ class _GenState:
                 self.handles.append((idx, "attr"))
                 self.calls[idx] = dict(op)
         self.recent_inputs.append(dict(op))
+        self.all_calls.append(dict(op))
         yield op
 
     def mutate(self, idx):
